@@ -145,8 +145,12 @@ type ExploreSummary struct {
 // over worker processes by level-1 subtree.  Machinery errors (replay
 // divergence) abort the process with status 2.
 func ExploreAll(r *report.Report, name string, arg interface{}, bound, points int, daemonLast bool) *ExploreSummary {
+	return ExploreAllOpt(r, name, arg, bound, points, daemonLast, false)
+}
+
+func ExploreAllOpt(r *report.Report, name string, arg interface{}, bound, points int, daemonLast bool, noCache bool) *ExploreSummary {
 	ab, _ := json.Marshal(arg)
-	base := exploreArg{Harness: name, Arg: ab, Bound: bound, Points: points, DaemonLast: daemonLast}
+	base := exploreArg{Harness: name, Arg: ab, Bound: bound, Points: points, DaemonLast: daemonLast, NoCache: noCache}
 	if !Deadline.IsZero() {
 		base.DeadlineUnix = Deadline.Unix()
 	}
